@@ -34,7 +34,8 @@ def _collected(table, kind, lim):
 
 
 def _nothing_else(table, kind, lim):
-    return (f"forall(lambda x: implies(x in {table}, exists(lambda q: c03m4_reports(self.expressions[q], {_TY}{kind}, x), 0, {lim})), ty='str')")
+    # exists q < lim: c03m4_reports(self.expressions[q], kind, x), in its quantifier-free recursive form (specs/c03m4_specs.py)
+    return (f"forall(lambda x: implies(x in {table}, c03m4_reported_upto(self.expressions, {_TY}{kind}, {lim}, x)), ty='str')")
 
 
 _KINDS = {1: ('free_betas', 'FREE_BETA'), 2: ('fixed_betas', 'FIXED_BETA'), 3: ('random_variables', 'RANDOM_VARIABLE'), 4: ('draws', 'DRAWS')}
@@ -90,12 +91,24 @@ _col.requires = {'formulas': 'forall(lambda q: self.expressions[q] is not None, 
 _col.check_frame = False
 _col.min_obligations = 8
 from pyvc.contract import LoopInv as _LoopInv
-_col.invariants = {k: _LoopInv(clauses={'accumulator_exists': 'c03c_allocated(expr)', 'collected_so_far': _collected('expr', kind, '_k')})
+_col.invariants = {k: _LoopInv(clauses={'accumulator_exists': 'c03c_allocated(expr)', 'collected_so_far': _collected('expr', kind, '_k'), 'nothing_else_so_far': _nothing_else('expr', kind, '_k')})
                    for k, (fld, kind) in _KINDS.items()}
 _col.ensures = {
-    **{f'{fld}_every_reported_name_is_numbered': _collected(f'self.{fld}.expressions', kind, 'len(self.expressions)') for fld, kind in _KINDS.values()}}
-# NOT proved: the converse (only reported names are numbered; helper _nothing_else): the forall-exists obligations of loops 2-4 and of the
-# exit stay `unknown` (both solvers); a name numbered without being reported is left to the bounded renaming differential.
+    **{f'{fld}_every_reported_name_is_numbered': _collected(f'self.{fld}.expressions', kind, 'len(self.expressions)') for fld, kind in _KINDS.values()},
+    # the converse (an accumulator that is not re-initialised between two kinds would number the free parameters as fixed ones as well)
+    **{f'{fld}_only_reported_names_are_numbered': _nothing_else(f'self.{fld}.expressions', kind, 'len(self.expressions)') for fld, kind in _KINDS.values()}}
+
+# the table of the database columns (fifth loop): every column name is indexed, and the index of a name is a position that carries it
+# (also with repeated column names; C01 reads Variable.variableId from this table)
+_col.invariants[5] = _LoopInv(clauses={
+    'indexed_so_far': 'forall(lambda q: variables_names[q] in variables_indices, 0, _k)',
+    'index_is_a_position_of_the_name': "forall(lambda x: implies(x in variables_indices, 0 <= typed(variables_indices[x], 'int') < _k and "
+                                       "variables_names[typed(variables_indices[x], 'int')] == x), ty='str')"})
+_col.ensures.update({
+    'every_column_is_indexed': 'implies(self.database is not None, forall(lambda q: self.variables.names[q] in self.variables.indices, 0, len(self.variables.names)))',
+    'column_index_is_a_position_of_the_name':
+        "implies(self.database is not None, forall(lambda x: implies(x in self.variables.indices, 0 <= self.variables.indices[x] < len(self.variables.names) and "
+        "self.variables.names[self.variables.indices[x]] == x), ty='str'))"})
 
 
 def lemmas():
